@@ -162,6 +162,7 @@ func genCase(t *rapid.T) Case {
 		}
 		c.Queries = append(c.Queries, qs)
 	}
+	c.H.Rename = gen.MaybeRename(t, c.H.Schema)
 	return c
 }
 
@@ -191,13 +192,13 @@ func execCase(c Case) (res vt.Result) {
 	}
 	defer r.Close()
 	// E: the in-memory backend with a manager of its own
-	memShard, err := drive.Open("", c.H.Schema, c.H.MaxPointSize, cache.NewManager(-1))
+	memShard, err := drive.OpenNamed("", c.H.Schema, c.H.MaxPointSize, cache.NewManager(-1), c.H.Rename)
 	if err != nil {
 		return vt.Result{Err: err}
 	}
 	defer memShard.Close()
 	// E2: the in-memory backend with the cache disabled (every operation reads the buckets)
-	memCold, err := drive.Open("", c.H.Schema, c.H.MaxPointSize, nil)
+	memCold, err := drive.OpenNamed("", c.H.Schema, c.H.MaxPointSize, nil, c.H.Rename)
 	if err != nil {
 		return vt.Result{Err: err}
 	}
